@@ -944,6 +944,8 @@ struct Ctx<'a> {
     schema: &'a SchemaT,
     cli: String,
     scratch: PathBuf,
+    /// replay mode: put the real texts into the result notes
+    dump: bool,
 }
 
 fn consts_of(stmts: &[Sexp]) -> Vec<(String, usize, bool)> {
@@ -1080,10 +1082,20 @@ impl<'a> Ctx<'a> {
         }
         let suffix_ok = case.cfg.iter().all(|(k, v)| !k.ends_with("Suffix") || v.as_str().map(ident_like).unwrap_or(true));
         self.rep.o_cases += 1;
+        // the CLI's declaration file (when produced) is a second witness of the declaration side
         let decl_sources: Vec<(&str, &Vec<Sexp>)> = match real.get("cli-dts") {
+            Some(c) if c == r_dts => vec![("library+cli", r_dts)],
             Some(c) => vec![("library", r_dts), ("cli", c)],
             None => vec![("library", r_dts)],
         };
+        if self.dump {
+            self.rep.notes.push(format!("config text:\n{}", case.config_text));
+            self.rep.notes.push(format!("declaration file (library):\n{}", lib.dts));
+            if let Some(t) = &cli_dts {
+                self.rep.notes.push(format!("declaration file (nitrogql-cli generate):\n{t}"));
+            }
+            self.rep.notes.push(format!("loader module (emit_js):\n{loader}"));
+        }
         let l_consts = consts_of(r_loader);
         let l_exports = value_exports(r_loader);
         let mut seen: BTreeMap<&str, Vec<usize>> = BTreeMap::new();
@@ -1105,8 +1117,14 @@ impl<'a> Ctx<'a> {
                 }
             }
             // 2. default export names the same, single operation
-            let dd: Vec<&(String, String)> = d_exports.iter().filter(|(e, _)| e == "default").collect();
-            let ld: Vec<&(String, String)> = l_exports.iter().filter(|(e, _)| e == "default").collect();
+            // (an `export const default` — operation named `default` with an empty suffix — is not a default export statement;
+            //  it is reported by the reserved-word check below)
+            let stmt_defaults = |m: &Vec<Sexp>| -> Vec<(String, String)> {
+                m.iter().filter(|s| s.head() == Some("default")).map(|s| ("default".to_string(), s.args()[0].as_str().unwrap_or("").to_string())).collect()
+            };
+            let (dd_v, ld_v) = (stmt_defaults(dts), stmt_defaults(r_loader));
+            let dd: Vec<&(String, String)> = dd_v.iter().collect();
+            let ld: Vec<&(String, String)> = ld_v.iter().collect();
             if dd.len() > 1 || ld.len() > 1 {
                 self.rep.fail("O", "default-twice", &format!("[{src}] more than one default export"), cj.clone());
             }
@@ -1275,7 +1293,7 @@ fn main() {
     let cli = args.extra.get("cli").cloned().unwrap_or_default();
     let cli = if Path::new(&cli).exists() { cli } else { String::new() };
     let scratch = PathBuf::from(if args.scratch.is_empty() { std::env::temp_dir().join("nv-c14").to_string_lossy().to_string() } else { args.scratch.clone() });
-    let mut ctx = Ctx { rep: &mut rep, drv: &mut drv, schema, cli: cli.clone(), scratch };
+    let mut ctx = Ctx { rep: &mut rep, drv: &mut drv, schema, cli: cli.clone(), scratch, dump: args.replay.is_some() };
 
     if let Some(path) = &args.replay {
         let v: Value = serde_json::from_str(&std::fs::read_to_string(path).expect("replay file")).expect("replay json");
